@@ -54,6 +54,11 @@ def all_units():
     return res
 
 
+def label_in_prop(label, prop, extra):
+    """a label belongs to the property of its prefix and to the properties the unit lists for it under [label_props]"""
+    return label.startswith(prop + ".") or prop in extra.get(label, [])
+
+
 def units_for(prop):
     return [n for n, c in all_units().items() if prop in c.get("unit", {}).get("properties", [])]
 
@@ -222,7 +227,7 @@ def run_unit(name, seed, tier):
     vr = res["out"].get("verification-results", {})
     r.update(refuted=refuted, undecided=undecided, labels=u.labels, functions=u.functions, rewrites=u.rewrites,
              assumptions=u.assumptions, verified=vr.get("verified", 0), errors=vr.get("errors", 0),
-             times=function_times(res), dropped=u.dropped,
+             times=function_times(res), dropped=u.dropped, label_props=u.cfg.get("label_props", {}),
              lemmas=[dict(fn=x[2], label=x[4]) for x in u.fn_ranges if x[3] == "lemma" and x[5] == "proof"],
              std_assumed=u.cfg.get("unit", {}).get("assumes", []))
     # vacuity smoke: every contracted function with `ensures false` appended must FAIL
@@ -297,8 +302,9 @@ def check_property(prop, tier, seed, quiet=False):
         failed_fns = {x["fn"] for x in r["refuted"]}
         # the body obligation of a function (implicit side conditions) fails only through an implicit/unlabelled failure
         failed_body_fns = {x["fn"] for x in r["refuted"] if not x["label"] or x["kind"] in ("implicit", "unlabelled")}
+        extra = r.get("label_props", {})
         for lab, info in r["labels"].items():
-            if not lab.startswith(prop + "."):
+            if not label_in_prop(lab, prop, extra):
                 continue
             obligations.append(lab)
             if lab not in failed_labels and not (info["fn"] in failed_fns and info["kind"] == "lemma") and not r["undecided"]:
@@ -311,7 +317,7 @@ def check_property(prop, tier, seed, quiet=False):
             if f["fn"] not in failed_body_fns and not r["undecided"]:
                 discharged.append(ob)
         for x in r["refuted"]:
-            if x["label"] and not x["label"].startswith(prop + "."):
+            if x["label"] and not label_in_prop(x["label"], prop, extra):
                 continue   # belongs to another property served by the same unit
             if not x["label"]:
                 undecided.append(f"[{r['unit']}] unlabelled obligation failed in {x['fn']}: {x['message']} @ {x['site']}")
